@@ -290,7 +290,21 @@ func c08ProjectP(r *mon.Run, vs *valService, rng *rand.Rand, p *gen.Project, red
 		var leaves []*gen.Node
 		p.Root.Walk(func(n *gen.Node) {
 			if n.Kind != gen.KObject && n.Kind != gen.KArray && n.Kind != gen.KRef {
-				if c, ok := n.Rule("const"); !ok || c.Lit != "true" {
+				constant := false
+				if c, ok := n.Rule("const"); ok && c.Lit == "true" {
+					constant = true
+				}
+				if orv, ok := n.Rule("or"); ok {
+					// `const: true` inside an alternative pins that alternative to the annotated value
+					for _, alt := range orv.List {
+						for _, ar := range alt.Set {
+							if ar.Name == "const" && ar.Val.Lit == "true" {
+								constant = true
+							}
+						}
+					}
+				}
+				if !constant {
 					leaves = append(leaves, n)
 				}
 			}
@@ -576,6 +590,6 @@ func init() {
 		MinNontrivialQuick: 8000, MinNontrivialThorough: 150000,
 		Assumptions: []string{"python jsonschema 4.26 Draft4Validator from the tooling venv (python3-vt) is the independent validator; if it cannot start the check exits 2",
 			"tightness is not judged (the OpenAPI schema may accept more than the JSight schema); description text not judged; formats asserted with small independent checkers",
-			"variations exclude leaves with const: true; the OpenAPI schema of a schema must not depend on its example values other than through `example` annotations"},
+			"variations exclude leaves with const: true (also inside an `or` alternative); the OpenAPI schema of a schema must not depend on its example values other than through `example` annotations"},
 	})
 }
